@@ -49,7 +49,7 @@ theorem retransmit {st : St} (h : P st) (x : Holder) : P (st.retransmit x) := by
     · exact h
   · exact h
 
-theorem reclaimStep {st : St} (h : P st) (sid : Nat) : P (st.reclaimStep sid) := by
+theorem reclaimStep {st : St} (h : P st) (now sid : Nat) : P (st.reclaimStep now sid) := by
   unfold St.reclaimStep
   split
   · exact h
@@ -76,13 +76,35 @@ theorem checkNotify {st : St} (h : P st) : P st.checkNotify := by
     foldl_inv P St.notifyRes (fun _ k ha => c.notifyRes ha k) _ st h
   exact c.misc _ _ _ _ _ [] h1
 
-theorem prepareIo {st : St} (h : P st) : P st.prepareIo := by
-  have h0 := c.checkNotify h
-  unfold St.prepareIo
+theorem fireAsync {st : St} (h : P st) (now : Nat) (x : Holder) : P (st.fireAsync now x) := by
+  unfold St.fireAsync
+  split
+  · split
+    · apply c.dropHolder
+      refine c.benign _ _ _ (c.misc st _ st.timeout st.maxIdle st.resAlive st.dirty h) ?_
+      intro s; exact ⟨rfl, rfl, rfl⟩
+    · exact h
+  · exact h
+
+theorem checkAsync {st : St} (h : P st) (now : Nat) : P (st.checkAsync now) :=
+  foldl_inv P _ (fun _ x ha => c.fireAsync ha now x) _ st h
+
+theorem preReclaim {st : St} (h : P st) (now : Nat) : P (st.preReclaim now) := by
+  have h0 := c.checkAsync (c.checkNotify h) now
+  unfold St.preReclaim
+  exact foldl_inv P St.retransmit (fun a x ha => c.retransmit ha x) _ _ h0
+
+theorem reclaimPass {st : St} (h : P st) (now : Nat) : P (st.reclaimPass now) := by
+  unfold St.reclaimPass
   apply foldl_inv P
   · intro a ep ha
-    exact foldl_inv P St.reclaimStep (fun b sid hb => c.reclaimStep hb sid) _ a ha
-  · exact foldl_inv P St.retransmit (fun a x ha => c.retransmit ha x) _ _ h0
+    exact foldl_inv P _ (fun b sid hb => c.reclaimStep hb now sid) _ a ha
+  · exact h
+
+theorem prepareIoAt {st : St} (h : P st) (now : Nat) : P (st.prepareIoAt now) :=
+  c.reclaimPass (c.preReclaim h now) now
+
+theorem prepareIo {st : St} (h : P st) : P st.prepareIo := c.prepareIoAt h st.now
 
 theorem addObserver {st : St} (h : P st) (sid k q tok : Nat) (hl : ∃ s ∈ st.sessions, s.sid = sid) :
     P (st.addObserver sid k q tok) := by
@@ -158,6 +180,11 @@ theorem serve {st : St} (h : P st) (sid : Nat) (r : Req) (hl : ∃ s ∈ st.sess
     · exact h
   | obsDereg k q tok => exact c.delObserverReq h _ _ _ _
   | async =>
+    dsimp only
+    split
+    · exact h
+    · exact c.addHolder _ _ _ h hl
+  | slow d dur =>
     dsimp only
     split
     · exact h
@@ -292,6 +319,7 @@ theorem Closed.step {P : St → Prop} (c : Closed P) {st : St} (h : P st) (e : E
         · exact h
     | advance d => exact c.misc st (st.now + d) st.timeout st.maxIdle st.resAlive st.dirty h
     | io => exact c.prepareIo h
+    | ioStale d => exact c.prepareIoAt h _
     | setMaxIdle n => exact c.misc st st.now st.timeout n st.resAlive st.dirty h
     | setTimeout n => exact c.misc st st.now n st.maxIdle st.resAlive st.dirty h
     | freeContext =>
